@@ -10,6 +10,15 @@ COMMON_ASSUMPTIONS = [
 
 PROPS = {}
 
+M_TEXT = (" In addition (engine M, module-level translation validation): the real parse -> edit history -> encode pipeline is run natively on a base module "
+          "that contains every kind of module-level reference (exports of globals/functions/memories, element segments as function lists and as ref.func expressions, "
+          "element/data offsets and global/table initialisers using global.get / ref.func, code using global.get / call / i32.load / memory.size), for every history of "
+          "<= 2 (quick) / 3 (thorough) steps of the property's menu; z3 then decides, for ALL host-supplied values (imported globals, imported function results, memory contents and sizes), "
+          "that every observable of the encoded module - what each export designates, where each data segment lands, what each element segment and table initialiser yields - equals "
+          "the observable of the reference module in which an ID simply is the entity it was handed out for; a history that leaves a live reference to a deleted entity must make encode() fail loudly. ")
+M_OUT = "; engine M: one base module, histories of <= 3 steps, straight-line function bodies, no mutable-global writes / start function / passive segments / tables beyond their initialiser"
+
+
 
 NOT_YET = {}
 
@@ -39,10 +48,10 @@ prop("C02", "K", "model_checking",
      technique="Kani/CBMC bounded model checking of InitExpr::to_wasmencoder_type and the DataType conversions against an independent byte-level reference encoder",
      outside="InitExpr::eval (decoder side, runs through wasmparser's operator reader), the name-section re-emission and the per-section emission loops of encode_internal; the struct arm of encode_type (CBMC out of memory, see harness/child_module.rs); multi-instruction (extended-const) expressions beyond ref.i31")
 
-prop("C28", "K", "model_checking",
-     text="Bounded model checking of the real CustomSections collection: from an arbitrary collection of up to 3 sections (symbolic names incl. duplicates, symbolic contents) one edit with arbitrary arguments (add, delete of any u32 id, write through get_section_data_mut of any id, get_id of any name) leaves exactly the list a reference Vec edited the same way would hold; one inductive step covers edit sequences of any length.",
-     technique="Kani/CBMC bounded model checking (inductive step) of CustomSections against a reference list",
-     outside="the parse-side filter in parse_internal (name section dropped, producers kept) and the 6-line emission loop at the end of encode_internal, both inline around wasmparser/wasm-encoder calls; sections longer than 2 bytes / more than 3 sections")
+prop("C28", "KM", "model_checking",
+     text="Bounded model checking of the real CustomSections collection: from an arbitrary collection of up to 3 sections (symbolic names incl. duplicates, symbolic contents) one edit with arbitrary arguments (add, delete of any u32 id, write through get_section_data_mut of any id, get_id of any name) leaves exactly the list a reference Vec edited the same way would hold; one inductive step covers edit sequences of any length. In addition (engine M, no solver involved in this part beyond the general observables): the base module carries custom sections at three positions (before the first section, before and after the name section; an empty one, a duplicated name, a producers section); after every history of <= 2 (quick) / 3 (thorough) steps of add / delete / modify of custom sections mixed with index-shifting edits the real encoder's output must contain exactly the prescribed sections (names, bytes, relative order) and every other observable of engine M must be unchanged.",
+     technique="Kani/CBMC bounded model checking (inductive step) of CustomSections against a reference list + exact comparison of the custom sections of the real encoder's output with a reference list over bounded-exhaustive edit histories (engine M)",
+     outside="position of custom sections relative to non-custom sections (the encoder emits them all at the end); sections longer than 2 bytes / more than 3 sections in the Kani part" + M_OUT)
 
 prop("C24", "K", "model_checking",
      text="Bounded model checking of every Opcode/MacroOpcode default method (197 helpers) on a light Inject sink: for all immediates (full-width integers, every f32/f64 bit pattern, all MemArg fields, block and heap types) the helper appends exactly one operator, namely the wasmparser variant its NAME denotes, with the immediates bit-for-bit (two's-complement reinterpretation for u32_const/u64_const). The expected variant is derived from the helper name and wasmparser's field names, never from the helper body.",
@@ -108,14 +117,6 @@ prop("C05", "KTM", "model_checking",
 
 K_IDX_TEXT = ("Bounded model checking of the wirm-owned index machinery, as a chain: (1) K-ops: one public edit operation with symbolic arguments on a real Module re-establishes the reachable-state invariant Inv and returns ids that designate the added entity; (2) K-reindex: from EVERY state satisfying Inv (<= 4 entities quick / 5 thorough, import list of N+1 entries) the real reorganise_generic / get_mapping_generic / recalculate_ids keep exactly the live entities, put imports first, map each old id to the final position of the same entity and agree with the order in which the import section emits function imports; (3) K-opmap: for every wasmparser Operator variant (617, field-name oracle) with symbolic immediates the real fix_op_id_mapping pushes each reference through the map of its own index space exactly once and changes nothing else; a stale reference panics. ")
 K_IDX_OUT = ("the inline remapping of exports / start / element items and the raw ConstExprs of tables and elements in encode_internal (inline between wasm-encoder calls, not executable by CBMC); validity of the output; Inv is an abstraction written in the harness: K-ops shows the decided operations re-establish it from one representative base state, not from every Inv state")
-M_TEXT = (" In addition (engine M, module-level translation validation): the real parse -> edit history -> encode pipeline is run natively on a base module "
-          "that contains every kind of module-level reference (exports of globals/functions/memories, element segments as function lists and as ref.func expressions, "
-          "element/data offsets and global/table initialisers using global.get / ref.func, code using global.get / call / i32.load / memory.size), for every history of "
-          "<= 2 (quick) / 3 (thorough) steps of the property's menu; z3 then decides, for ALL host-supplied values (imported globals, imported function results, memory contents and sizes), "
-          "that every observable of the encoded module - what each export designates, where each data segment lands, what each element segment and table initialiser yields - equals "
-          "the observable of the reference module in which an ID simply is the entity it was handed out for; a history that leaves a live reference to a deleted entity must make encode() fail loudly. ")
-M_OUT = "; engine M: one base module, histories of <= 3 steps, straight-line function bodies, no mutable-global writes / start function / passive segments / tables beyond their initialiser"
-
 prop("C06", "KM", "model_checking", text=K_IDX_TEXT + "For C06: function operators Call / ReturnCall / RefFunc and InitInstr::RefFunc, function operations add_import_func / add_local_func / delete_func / convert_local_fn_to_import / convert_import_fn_to_local." + M_TEXT,
      technique="z3 equivalence of the instantiation semantics of the real encoder's output with a label-based reference model over bounded-exhaustive edit histories (engine M) + Kani/CBMC bounded model checking of the generic re-indexing code on light types (inductive over the reachable-state invariant), of single edit operations on the real Module and of fix_op_id_mapping over all Operator variants", outside=K_IDX_OUT + M_OUT)
 prop("C07", "KM", "model_checking", text=K_IDX_TEXT + "For C07: the 11 global-indexed operators and InitInstr::Global; add_global, add_imported_global (also after an iterator-level add_global), delete_global, mod_global_init_expr." + M_TEXT,
